@@ -107,22 +107,23 @@ def exact(DX, DY):
 
 def greedy_upper(DX, DY, rng, tries=20):
     """distortion of maps found by my own randomised greedy search (an upper bound of min distortion)"""
-    n, m = len(DX), len(DY)
+    import numpy as np
+    X = np.asarray(DX, dtype=np.int64)
+    Y = np.asarray(DY, dtype=np.int64)
+    n, m = len(X), len(Y)
     best = None
     for _ in range(tries):
         order = list(range(n))
         rng.shuffle(order)
-        img = {}
+        xs, ys = [order[0]], [rng.randrange(m)]
         cur = 0
-        for x in order:
-            cand = None
-            for y in rng.sample(range(m), m):
-                c = cur
-                for xp, yp in img.items():
-                    c = max(c, abs(DX[x][xp] - DY[y][yp]))
-                if cand is None or c < cand[0]:
-                    cand = (c, y)
-            cur, img[x] = cand
+        for x in order[1:]:
+            cost = np.max(np.abs(X[x, xs][None, :] - Y[:, ys]), axis=1)      # cost of sending x to each y
+            cost = np.maximum(cost, cur)
+            y = int(np.argmin(cost + np.array([rng.random() * 1e-9 for _ in range(1)])[0] * 0))
+            cur = int(cost[y])
+            xs.append(x)
+            ys.append(y)
         best = cur if best is None else min(best, cur)
     return best or 0
 
